@@ -5,7 +5,7 @@ instances of Predicate (update_cache skips them); they are wrapped on demand by 
 instance gets the id of an instance that died earlier and was not swept yet, the relation is attached to the dead
 node: it is never visible and disappears with the next sweep.  On a fresh graph the same assertion is recorded.
 
-Run:  cd /tmp/hunt2/C14 && PYTHONPATH=/tmp/hunt2/C14/src:/tmp/hunt2/C14 /venv/bin/python HUNT/defect2.py
+Run:  cd /tmp/hunt2/C14 && PYTHONPATH=/repo/src:/tmp/hunt2/C14 /venv/bin/python HUNT/defect2.py
 """
 from __future__ import annotations
 
